@@ -51,6 +51,7 @@ type c07Reload struct {
 	GapUs int    `json:"gap_us"`         // pause before the call
 	ShutErr bool `json:"shut_err,omitempty"` // valid configuration whose OnShutdown callback returns an error
 	Hold    bool `json:"hold,omitempty"`     // a half-sent request is held open on the old instance across the call (drain timeout)
+	Span    int  `json:"span,omitempty"`     // ... and across that many further reload calls before it is completed (slow request in flight across several reloads)
 }
 
 type c07In struct {
@@ -155,6 +156,17 @@ func c07Register() {
 				c.OnStartup(func() error { return errors.New("c07probe: startup callback failure requested") })
 			case "failshutdown":
 				c.OnShutdown(func() error { return errors.New("c07probe: shutdown callback failure requested") })
+			case "hook0", "hook1":
+				// an event hook of this configuration (what the `on` directive does): name 2*cfg+i
+				name := 2*n[0] + int(a[4]-'0')
+				casket.RegisterEventHook(fmt.Sprintf("c07hook-%d", name), func(ev casket.EventName, info interface{}) error {
+					if cen, ok := info.(*c07Census); ok && ev == c07CensusEvent {
+						cen.mu.Lock()
+						cen.names = append(cen.names, name)
+						cen.mu.Unlock()
+					}
+					return nil
+				})
 			}
 		}
 		p := c07Probe{cfg: n[0], slot: n[1], site: n[2], delay: time.Duration(n[3]) * time.Millisecond, bodyLen: n[4], chunked: n[5] != 0}
@@ -162,6 +174,40 @@ func c07Register() {
 		return nil
 	}})
 }
+
+// census of the registered event hooks: every hook of a probe answers the census event with its name
+const c07CensusEvent = casket.EventName("c07census")
+
+type c07Census struct {
+	mu    sync.Mutex
+	names []int
+}
+
+func c07TakeCensus() []int {
+	cen := &c07Census{}
+	casket.EmitEvent(c07CensusEvent, cen)
+	sort.Ints(cen.names)
+	if cen.names == nil {
+		return []int{}
+	}
+	return cen.names
+}
+
+// hook names the configuration of generation n registers (first block: 2n, last block, when there
+// is more than one: 2n+1)
+func c07HookNames(in *c07In, n int, slots []int) []int {
+	nb := len(slots) * in.Sites
+	switch {
+	case nb == 0:
+		return []int{}
+	case nb == 1:
+		return []int{2 * n}
+	}
+	return []int{2 * n, 2*n + 1}
+}
+
+// hooks are part of the lineage only when it has the process for itself (child process)
+var c07HooksOn = os.Getenv("C07_INPROC") == ""
 
 // ---------------------------------------------------------------------------------------------
 // configuration text
@@ -221,6 +267,11 @@ func c07Config(in *c07In, n int, slots []int, kind string, variant int, blockedP
 			}
 			if shutErr && bi == 0 {
 				extra += " failshutdown"
+			}
+			if c07HooksOn && bi == 0 {
+				extra += " hook0"
+			} else if c07HooksOn && bi == nblocks-1 {
+				extra += " hook1"
 			}
 			fmt.Fprintf(&sb, "  c07probe %d %d %d %d %d %d%s\n", n, sl, j, in.DelayMs, in.BodyLen, ch, extra)
 			sb.WriteString("}\n")
@@ -391,6 +442,8 @@ type c07Obs struct {
 	Note     string   `json:"note,omitempty"`
 	StallMs  int64    `json:"longest_scheduler_stall_ms,omitempty"`
 	Drains   int      `json:"drain_timeouts,omitempty"`
+	Spanning int      `json:"held_across_several_reloads,omitempty"`
+	Hooks    []string `json:"hook_census,omitempty"` // names of the event hooks registered after each reload
 	WaitEarly bool    `json:"wait_returned_early,omitempty"`
 	WaitStuck bool    `json:"wait_stuck_after_stop,omitempty"`
 	Invalid   bool    `json:"harness_invalid,omitempty"`
@@ -703,6 +756,8 @@ func c07RunLineage(in *c07In) (res Result) {
 	}
 	l.t0 = time.Now()
 	dbg("start")
+	cen0 := c07TakeCensus()
+	var hobs []string
 
 	// bind bookkeeping: which model address / port a slot has after a successful (re)start
 	learn := func(inst *casket.Instance) {
@@ -824,6 +879,17 @@ func c07RunLineage(in *c07In) (res Result) {
 		syncBurst(mr)
 	}
 
+	// held requests that stay open across further reloads: (finisher, reloads left)
+	type c07Carry struct {
+		fin  func()
+		left int
+	}
+	var carried []c07Carry
+	defer func() {
+		for _, c := range carried {
+			c.fin()
+		}
+	}()
 	for n1, rl := range in.Reloads {
 		n := n1 + 1
 		if atomic.LoadInt64(&l.timeouts) >= 2 {
@@ -955,8 +1021,33 @@ func c07RunLineage(in *c07In) (res Result) {
 			setTargets(curSlots)
 		}
 		l.add(tret, 1, cApp("ERet", cNat(r)), fmt.Sprintf("ret %d -> %d", n, r))
+		{
+			cen := c07TakeCensus()
+			hf := 0
+			if rl.Kind != "ok" {
+				hf = 1
+			}
+			hobs = append(hobs, "("+cNatList(c07HookNames(in, n, rl.Slots))+", "+cNat(hf)+", "+cBool(rerr == nil)+", "+cNatList(cen)+")")
+			obs.Hooks = append(obs.Hooks, fmt.Sprintf("%d:%v", n, cen))
+		}
+		{
+			var keep []c07Carry
+			for _, c := range carried {
+				if c.left <= 1 {
+					c.fin()
+				} else {
+					keep = append(keep, c07Carry{c.fin, c.left - 1})
+				}
+			}
+			carried = keep
+		}
 		if finishHeld != nil {
-			finishHeld()
+			if rl.Span > 0 && n1+1 < len(in.Reloads) {
+				carried = append(carried, c07Carry{finishHeld, rl.Span})
+				obs.Spanning++
+			} else {
+				finishHeld()
+			}
 		}
 		l.observe(curSlots, true)
 		if in.Mode == "sync" {
@@ -968,6 +1059,11 @@ func c07RunLineage(in *c07In) (res Result) {
 			syncBurst(mr)
 		}
 	}
+	// held requests still open (the lineage ended or was cut short first) are completed now
+	for _, c := range carried {
+		c.fin()
+	}
+	carried = nil
 	if in.Mode == "load" {
 		time.Sleep(2 * time.Millisecond)
 	}
@@ -1017,6 +1113,10 @@ func c07RunLineage(in *c07In) (res Result) {
 	// request ids must follow the order of the start events (ids were taken under the lock
 	// together with the stamp, so they do)
 	res.Term = cApp("CHist", cNatList(a0), cNatList([]int{c07BlockedAddr}), cList(terms))
+	if c07HooksOn {
+		res.Term = cApp("CHistH", cNatList(a0), cNatList([]int{c07BlockedAddr}), cList(terms), cBool(in.Signal),
+			cNatList(c07HookNames(in, 0, in.Slots0)), cNatList(cen0), cList(hobs))
+	}
 
 	if in.Signal && atomic.LoadInt64(&c07SigSeen) != atomic.LoadInt64(&c07SigSent) {
 		obs.Note += fmt.Sprintf("harness: %d SIGUSR1 receipts for %d reloads requested; ", atomic.LoadInt64(&c07SigSeen), atomic.LoadInt64(&c07SigSent))
@@ -1318,6 +1418,9 @@ func c07Gen(r *Rand, tier string) []interface{} {
 			if r.Chance(65) {
 				in.Reloads[j].Hold = true
 				any = true
+				if r.Chance(40) {
+					in.Reloads[j].Span = 1 + r.Intn(2)
+				}
 			}
 		}
 		if !any {
